@@ -37,7 +37,7 @@ def cases(ctx, budget):
     rng = ctx.rng
     env = harness.make_env()
     n = (2500 if ctx.quick else 100000) * budget
-    sweep = [chr(c) for c in range(0, 0x300)] + ["퟿", "", "￿", "\U00010000", "\U0010FFFF", "\U0001F600", " ", "", "'\"\\", "\\'", "a'b\"c\\d", "\\\"", "\\\\'", "e\u0301", "\u212b", "\u1100\u1161", "\u2126", "A\u030a", "\u212a", "\uf900", "\u037e"]
+    sweep = [chr(c) for c in range(0, 0x300)] + ["퟿", "", "￿", "\U00010000", "\U0010FFFF", "\U0001F600", " ", "", "'\"\\", "\\'", "a'b\"c\\d", "\\\"", "\\\\'", "e\u0301", "\u212b", "\u1100\u1161", "\u2126", "A\u030a", "\u212a", "\uf900", "\u037e", " a", "a ", "\u00df", "\u0130", "\ufb01", "\uff41", "a\u200b", "\ufeffa", "\u00ad"]
     if not ctx.quick:
         sweep += [chr(rng.choice([rng.randint(0x300, 0xd7ff), rng.randint(0xe000, 0x10ffff)])) for _ in range(20000)]
     k = 0
